@@ -6,6 +6,8 @@
 (* configuration and environment facts of the behaviour.                  *)
 (*                                                                         *)
 (* Events:  Msg(reqtls, tlsno, quar)   driver, before Target.Start        *)
+(*          Lookup(mx, cross)          harness, where the outstanding TLSA *)
+(*                                     answer of an earlier MX was stored  *)
 (*          SrvConn(mx, tls, cert)     scripted server, TLS state settled *)
 (*          SrvData(mx, tls, cert)     scripted server, content received  *)
 (*          Ret(op, res)               driver, AddRcpt / Body returned    *)
@@ -57,6 +59,7 @@ TReset ==
 MsgOf(e) == [reqtls |-> e.reqtls, tlsno |-> e.tlsno, quar |-> e.quar]
 
 C_Msg  == IsEv("Msg") /\ StartMsg(MsgOf(Ev))
+C_Look == IsEv("Lookup") /\ Lookup(Ev.mx, Ev.cross)
 C_Conn == IsEv("SrvConn") /\ Connect(Ev.mx, Ev.tls)
 C_Data == IsEv("SrvData") /\ Data(Ev.mx, Ev.tls) /\ (Ev.tls = "none" \/ Ev.cert = cfg.mx[Ev.mx].cert)
 C_Ret  == IsEv("Ret") /\
@@ -64,7 +67,7 @@ C_Ret  == IsEv("Ret") /\
             \/ Ev.op = "body" /\ BodyRet(Ev.res)
 C_End  == IsEv("End") /\ Finish
 
-Consume == C_Msg \/ C_Conn \/ C_Data \/ C_Ret \/ C_End
+Consume == C_Msg \/ C_Look \/ C_Conn \/ C_Data \/ C_Ret \/ C_End
 Conform == Consume \/ Silent
 
 C_Step ==
